@@ -7,7 +7,6 @@
    "\n\r\n" counts twice.  The line of a byte offset is 1 + the number of newline sequences
    that start before it. *)
 From GL Require Import Common.Bytes.
-From Coq Require Import String Ascii.
 
 Definition is_nl (c : Z) : bool := (c =? 10) || (c =? 13).
 
@@ -62,27 +61,35 @@ Definition span_lines (bs : bytes) (spans : list (Z * Z)) : list (Z * Z) :=
   scan_spans 0 0 0 bs spans.
 
 (* spans are usable: in order, inside the text, non-empty, and no token starts or ends with a
-   newline byte (true of every Lua token; long strings start with '[' and end with ']'). *)
+   newline byte (true of every Lua token; long strings start with '[' and end with ']').
+   bs is the text from offset pos on. *)
 Fixpoint spans_ok (pos : Z) (bs : bytes) (spans : list (Z * Z)) : bool :=
   match spans with
   | [] => true
   | (off, ln) :: rest =>
-      (pos <=? off) && (0 <? ln) && (off + ln <=? len bs) &&
-      match zth bs off, zth bs (off + ln - 1) with
-      | Some a, Some b => negb (is_nl a) && negb (is_nl b)
+      let b1 := skipn (Z.to_nat (off - pos)) bs in
+      (pos <=? off) && (0 <? ln) &&
+      match b1, nth_error b1 (Z.to_nat (ln - 1)) with
+      | a :: _, Some b => negb (is_nl a) && negb (is_nl b)
       | _, _ => false
-      end && spans_ok (off + ln) bs rest
+      end && spans_ok (off + ln) (skipn (Z.to_nat ln) b1) rest
   end.
 
-(* ---- hex transport of source texts in case files ---- *)
-Definition hexval (a : ascii) : Z :=
-  let n := Z.of_N (N_of_ascii a) in
-  if (48 <=? n) && (n <=? 57) then n - 48
-  else if (97 <=? n) && (n <=? 102) then n - 87
-  else 0.
+(* ---- transport of source texts in case files: 7 bytes per primitive 63-bit integer, most
+   significant byte first (a plain byte list costs ~100 us per byte to load, this 20x less) ---- *)
+From Coq Require Import Uint63.
 
-Fixpoint unhex (s : string) : bytes :=
-  match s with
-  | String a (String b r) => (16 * hexval a + hexval b) :: unhex r
-  | _ => []
-  end.
+Definition byte_at (x : int) (k : Z) : Z :=      (* k = 0 .. 6 *)
+  Uint63.to_Z (Uint63.land (Uint63.lsr x (Uint63.of_Z (8 * (6 - k)))) 255%uint63).
+
+Definition unpack1 (x : int) : bytes := map (byte_at x) [0; 1; 2; 3; 4; 5; 6].
+
+(* n = length of the text in bytes; the last integer is padded with zero bytes *)
+Definition unpack (n : Z) (l : list int) : bytes :=
+  firstn (Z.to_nat n) (flat_map unpack1 l).
+
+Definition ints_to_Z (l : list int) : list Z := map Uint63.to_Z l.
+
+(* a span packed as offset * 65536 + length *)
+Definition unspan (x : int) : Z * Z :=
+  let z := Uint63.to_Z x in (z / 65536, z mod 65536).
